@@ -482,7 +482,7 @@ def pts_intr(tier):
 
 def run_intr(ctx, pt):
     """call B (another object) runs to completion in the middle of call A, at G evenly spaced line events of A inside the
-    library (G = 40, thorough 400; every line when A has fewer): schedules of two threads with at most one preemption, on a
+    library (G = 20, thorough 400; every line when A has fewer): schedules of two threads with at most one preemption, on a
     grid of preemption points.  Both results equal the results of the calls made alone."""
     name, d, tier = pt
     fa, fb = _pairs()[name]
@@ -490,7 +490,7 @@ def run_intr(ctx, pt):
     alone_x = pristine(lambda: ('ok', obs(x())))
     alone_y = pristine(lambda: ('ok', obs(y())))
     _, _, n = _run_with_intrusion(x, y, -1)
-    G = 400 if tier == 'thorough' else 40
+    G = 400 if tier == 'thorough' else 20
     pts = sorted({1 + (i * (n - 1)) // max(1, G - 1) for i in range(G)} | {1, 2, n}) if n > G else list(range(1, n + 1))
     ctx.extra['preemption_points'] += len(pts)
     ctx.extra['max_line_events_of_one_call'] = max(ctx.extra['max_line_events_of_one_call'], n)
@@ -756,7 +756,7 @@ def run_firstuse(ctx, pt):
 
 def subchecks():
     return [Sub('nested-calls', pts_intr, run_intr, engine='H', exhaustive=False, chunk=1,
-                bound='20 pairs of one-shot calls on two different objects (same class other arguments, sibling sizes, cipher / mode / stream pairs): call B runs to completion at 40 (thorough 400) evenly spaced line events of call A inside the library (every line when A is shorter), and A inside B - two-thread schedules with one preemption on a grid of preemption points (a call has 400 to 220000 line events; the grid is a stated cap, not full line coverage); interference is counted in the evidence (extra.nested_calls_that_interfered) and is a verdict only with VERIF_JUDGE_NESTED=1, because the property speaks of earlier calls, not of concurrent ones'),
+                bound='20 pairs of one-shot calls on two different objects (same class other arguments, sibling sizes, cipher / mode / stream pairs): call B runs to completion at 20 (thorough 400) evenly spaced line events of call A inside the library (every line when A is shorter), and A inside B - two-thread schedules with one preemption on a grid of preemption points (a call has 400 to 220000 line events; the grid is a stated cap, not full line coverage); interference is counted in the evidence (extra.nested_calls_that_interfered) and is a verdict only with VERIF_JUDGE_NESTED=1, because the property speaks of earlier calls, not of concurrent ones'),
             Sub('deep-copies', pts_deepcopy, run_deepcopy, engine='H', chunk=1,
                 bound='every object kind of the histories subcheck (module instances excepted): a deep copy taken from a fresh object and after each of its first 6 events; up to 4 judged calls on the copy, on the original, on the copy again vs pristine answers'),
             Sub('constructor-argument-types', pts_ctor, run_ctor, engine='P',
